@@ -55,9 +55,9 @@ def corrNode (lang : Lang) (d : NodeData) (kids : List Tree) (path : List Nat) (
   let f := chk f "ext_state_change" (s.extStateChange == d.extStateChange) (toString s.extStateChange) (toString d.extStateChange)
   let f := chk f "depends_on_column" (s.dependsOnColumn == d.dependsOnColumn || s2.dependsOnColumn == d.dependsOnColumn)
             (toString s.dependsOnColumn) (toString d.dependsOnColumn)
-  -- `ts_parser__balance_subtree` compresses a child *after* its parent was summarized and does not
-  -- re-summarize the ancestors, so a cached repeat depth may be stale (too large), never too small
-  let f := chk f "repeat_depth" (s.repeatDepth ≤ d.repeatDepth) (toString s.repeatDepth) (toString d.repeatDepth)
+  -- repeat_depth is NOT compared: `ts_parser__balance_subtree` compresses (rotates) descendants after
+  -- their ancestors were summarized and re-summarizes only the three rotated nodes, so an
+  -- ancestor's cached repeat depth may be stale in either direction (it only steers balancing).
   let f := chk f "first_leaf" (s.firstLeafSymbol == d.firstLeafSymbol && s.firstLeafState == d.firstLeafState)
             s!"{s.firstLeafSymbol}/{s.firstLeafState}" s!"{d.firstLeafSymbol}/{d.firstLeafState}"
   let f := chk f "fragile" (s.fragileLeft == d.fragileLeft && s.fragileRight == d.fragileRight)
@@ -137,12 +137,14 @@ def matchesAt (text : Array Nat) (i hi : Nat) (lit : List Nat) : Bool :=
 
 /-- `[lo, hi)` consists only of what the lexer may skip: whitespace, literal extras, and the
 byte-order mark at offset 0 (`ts_lexer_start`). -/
-def skippable (lang : Lang) (text : Array Nat) (lo hi : Nat) : Bool :=
+def skippable (lang : Lang) (text : Array Nat) (lo hi : Nat) (ranges : List TSRange := []) : Bool :=
   let rec go (fuel i : Nat) : Bool :=
     match fuel with
     | 0 => decide (i ≥ hi)
     | fuel + 1 =>
       if i ≥ hi then true
+      -- a byte outside every included range is never read by the lexer
+      else if !ranges.isEmpty && !(ranges.any fun r => r.start_byte ≤ i && i < r.end_byte) then go fuel (i + 1)
       else
         let w := if lang.skipWs then wsLen text i hi else 0
         if w > 0 then go fuel (i + w)
@@ -154,6 +156,11 @@ def skippable (lang : Lang) (text : Array Nat) (lo hi : Nat) : Bool :=
 
 def sliceEq (text : Array Nat) (lo hi : Nat) (bytes : List Nat) : Bool :=
   hi - lo == bytes.length && matchesAt text lo hi bytes || (bytes.isEmpty && lo == hi)
+
+/-- The bytes of `[lo, hi)` that lie inside the included ranges (all of them when there are none). -/
+def includedBytes (text : Array Nat) (lo hi : Nat) (ranges : List TSRange) : List Nat :=
+  ((List.range (hi - lo)).map (· + lo)).filterMap fun i =>
+    if ranges.isEmpty || ranges.any (fun r => r.start_byte ≤ i && i < r.end_byte) then text[i]? else none
 
 /-! ## The ordered tree of visible nodes, computed from the dump -/
 
@@ -195,6 +202,7 @@ structure Env where
   lang : Lang
   text : Array Nat
   tbl : Array TSPoint
+  ranges : List TSRange := []
 
 def Env.pointOK (e : Env) (l : Length) : Bool :=
   l.bytes ≤ e.text.size && decide (e.tbl.getD l.bytes { row := 0, column := 0 } = l.extent)
@@ -216,12 +224,12 @@ mutual
                 s!"{where_ ()} expected start={repr (e.tbl.getD start.bytes default)} end={repr (e.tbl.getD stop.bytes default)}"
       let f := if !d.isMissing || decide (d.size = length_zero) then f else f.add "missing_empty" where_
       let isLeaf := kids.isEmpty
-      let f := if !isLeaf || !e.lang.skipKnown || skippable e.lang e.text pos.bytes start.bytes then f
+      let f := if !isLeaf || !e.lang.skipKnown || skippable e.lang e.text pos.bytes start.bytes e.ranges then f
                else f.add "padding_skippable" fun _ => s!"{where_ ()} padding=[{pos.bytes},{start.bytes})"
       let m := e.lang.symMeta d.symbol
       let isLiteral := isLeaf && m.visible && !m.named && al == 0 && !d.isMissing && !d.hasExternalTokens &&
                        d.symbol < e.lang.tokenCount - e.lang.externalTokenCount && d.symbol != symEnd
-      let f := if !isLiteral || sliceEq e.text start.bytes stop.bytes (m.name.toUTF8.toList.map (·.toNat)) then f
+      let f := if !isLiteral || includedBytes e.text start.bytes stop.bytes e.ranges == m.name.toUTF8.toList.map (·.toNat) then f
                else f.add "literal" fun _ => s!"{where_ ()} name={m.name}"
       let relevant := isRoot || d.visible || al != 0
       let sym := if al != 0 then al else d.symbol
@@ -367,14 +375,14 @@ structure CaseResult where
   corrStats : CorrStats
 
 /-- Everything for one real tree. -/
-def judgeCase (lang : Lang) (text : Array Nat) (root : Tree) (api : Array ApiNode) : CaseResult :=
+def judgeCase (lang : Lang) (text : Array Nat) (root : Tree) (api : Array ApiNode) (ranges : List TSRange := []) : CaseResult :=
   let cs := corrTree lang root [] {}
-  let e : Env := { lang := lang, text := text, tbl := posTable text }
+  let e : Env := { lang := lang, text := text, tbl := posTable text, ranges := ranges }
   let (js, _) := walk e root length_zero 0 true 0 0 text.size [] {}
   -- what follows the root must be skippable too (trailing whitespace belongs to no node)
   let rootEnd := root.totalBytes
   let f := js.fails
-  let f := if !lang.skipKnown || skippable lang text rootEnd text.size then f
+  let f := if !lang.skipKnown || skippable lang text rootEnd text.size ranges then f
            else f.add "trailing_skippable" fun _ => s!"root ends at {rootEnd}, text has {text.size} bytes"
   let f := apiNesting api text.size f
   let f := cmpApi js.vnodes api f
